@@ -152,7 +152,12 @@ def gen_pkg(r: random.Random) -> dict:
         rid = new_id(src)
         while any(x["id"] == rid for x in rels):
             rid = rid + "x"
-        rels.append({"id": rid, "type": r.choice(RELTYPES), "target": r.choice(EXTERNALS), "mode": "External"})
+        ext_t = r.choice(EXTERNALS)
+        if placed and r.random() < 0.3:
+            # an EXTERNAL target whose text happens to spell a part of this very package (relative or absolute): it stays external
+            pn = r.choice(placed)
+            ext_t = r.choice([pn, pkgxform.relref(src, pn), pn.rpartition("/")[2]])
+        rels.append({"id": rid, "type": r.choice(RELTYPES), "target": ext_t, "mode": "External"})
     # content types: defaults per extension group, overrides for the rest
     defaults = {}
     overrides = []
@@ -177,7 +182,9 @@ def gen_pkg(r: random.Random) -> dict:
         overrides.append(["/not/there.bin", "application/x-ghost"])
     return {"parts": parts, "root_rels": root_rels, "defaults": sorted(defaults.items()), "overrides": overrides,
             "order_seed": r.randint(0, 999), "stored": r.random() < 0.3,
-            "xml_decl_rels": r.random() < 0.8}
+            "xml_decl_rels": r.random() < 0.8,
+            # the package's own XML items in another equivalent spelling (namespace prefix, one attribute per line, UTF-16)
+            "pkg_xml_style": r.choice([None, None, None, "prefixed", "multiline", "utf16", "mixed"])}
 
 
 def spell(r: random.Random, src: str, tgt: str) -> str:
@@ -253,7 +260,10 @@ def build_pkg(rec: dict) -> bytes:
         if p["rels"]:
             members.append((refpkg.rels_name_for(p["name"])[1:], rels_xml(p["rels"], rec.get("xml_decl_rels", True))))
     random.Random(rec.get("order_seed", 0)).shuffle(members)
-    return pkgxform.write_members(members, stored=rec.get("stored", False))
+    data = pkgxform.write_members(members, stored=rec.get("stored", False))
+    if rec.get("pkg_xml_style"):
+        data = pkgxform.respell_package_xml(data, rec["pkg_xml_style"], rec.get("order_seed", 0))
+    return data
 
 
 # ---- execution ------------------------------------------------------------------------------------------
@@ -269,13 +279,14 @@ def _open(data: bytes, form: str, pos: int, api: str, disk: SimDisk, tag: str):
             return opener(p)
         finally:
             os.unlink(p)
-    if form == "dir":
+    if form in ("dir", "dirlink"):
         disk.put(tag, data)
-        d = disk.materialize_dir(tag)
+        d = disk.materialize_dir(tag, link=(form == "dirlink"))
         try:
             return opener(d)
         finally:
             shutil.rmtree(d, ignore_errors=True)
+            shutil.rmtree(d + ".linked", ignore_errors=True)
     return opener(SimSource(data, pos=pos))
 
 
@@ -477,6 +488,8 @@ def _features(trace, ref_in):
                 f.add("odd-rid")
     if any(x.get("explicit") for p_ in rec["parts"] for x in p_["rels"]) or any(x.get("explicit") for x in rec["root_rels"]):
         f.add("explicit-internal-target-mode")
+    if rec.get("pkg_xml_style"):
+        f.add("package-xml-respelled")
     if any("%" in t_ for t_ in tg):
         f.add("percent-escaped-part-name-reachable")
     if any(len(v) > 1 for v in tg.values()):
@@ -503,9 +516,9 @@ def plan(tier):
 def gen_trace(seed: int, tier: str) -> dict:
     S = Streams(seed)
     r = S("cycle")
-    cyc = {"form": r.choice(["stream", "path", "dir"]), "pos": r.choice([0, 0, 9, 10 ** 8]),
+    cyc = {"form": r.choice(["stream", "path", "dir", "dirlink"]), "pos": r.choice([0, 0, 9, 10 ** 8]),
            "sink1": r.choice(["seekable", "unseekable", "path"]), "sink2": r.choice(["seekable", "unseekable", "path"]),
-           "form2": r.choice(["stream", "path", "dir"]), "api": "package",
+           "form2": r.choice(["stream", "path", "dir", "dirlink"]), "api": "package",
            "jump1": r.choice([0, 0, 3600, -86400 * 400, 86400 * 9000]), "jump2": r.choice([0, 0, -7200, 86400 * 365])}
     t = {"property": ID, "seed": seed, "tier": tier, "cycle": cyc, "events": []}
     if r.random() < 0.15:
@@ -534,7 +547,7 @@ def pinned_traces(tier):
     cyc = {"form": "stream", "pos": 0, "sink1": "seekable", "sink2": "seekable", "form2": "stream", "api": "package"}
     # every corpus deck, both APIs
     for d in common.corpus_decks():
-        for api, form in (("package", "stream"), ("presentation", "path"), ("presentation", "dir")):
+        for api, form in (("package", "stream"), ("presentation", "path"), ("presentation", "dir"), ("package", "dirlink")):
             out.append({"property": ID, "seed": "corpus-%s-%s" % (d, api), "tier": "pinned", "deck": d,
                         "cycle": dict(cyc, api=api, form=form), "events": []})
         out.append({"property": ID, "seed": "corpus-%s-neighbour" % d, "tier": "pinned", "deck": d,
